@@ -162,7 +162,12 @@ def server_refusals(ctx, h, rng):
                 if mode == "expedited" and w > 4:
                     continue
                 data = bytes(rng.getrandbits(8) for _ in range(w))
-                case = case_of("write-ro", vm, mode=mode, data=data)
+                same = rng.random() < 0.4
+                if same:
+                    # the application has stored a value locally (a read-only entry is not read-only for the device itself);
+                    # a client that writes exactly that value back is refused like any other writer
+                    h.node.data_store.setdefault(vm.index, {})[vm.sub] = data
+                case = case_of("write-ro", vm, mode=mode, data=data, writes_back_the_stored_value=same)
                 snap = h.snapshot()
                 res = c.download(*mux, data, mode="expedited" if mode == "expedited" else "segmented", size_indicated=mode != "segmented-nosize")
                 judge(ctx, h, "write-ro", res, mux, case, mode)
@@ -218,7 +223,9 @@ def server_refusals(ctx, h, rng):
             h.flush(case)
         after()
     for index, o in model.objects.items():
-        if o.kind != "record":
+        if o.kind == "array" and getattr(o, "array_style", None) != "count-only":
+            continue                     # (elements of a described array exist for every sub-index 1..255)
+        if o.kind == "var":
             continue
         missing = [s for s in (1, 2, 0x1F, 0x20, 0x7F, 0xFE, 0xFF) if s not in o.members]
         for sub in rng.sample(missing, min(3, len(missing))):
